@@ -199,7 +199,6 @@ open Jedi.Gen.AsmX86
 /-! ## `bigint_768_multiply` (baseline): symbolic execution, cut into pieces -/
 
 set_option maxHeartbeats 1600000 in
-set_option maxRecDepth 100000 in
 theorem mul768_part0 (s : State) (pr pa pb : Word)
     (hr : Buf s pr 12 true) (ha : Buf s pa 6 false) (hb : Buf s pb 6 false)
     (hra : X86.Disjoint pr 12 pa 6) (hrb : X86.Disjoint pr 12 pb 6)
@@ -236,7 +235,6 @@ theorem mul768_part0 (s : State) (pr pa pb : Word)
   x86_sym [hst, hpc, hdi, hsi, hdx, sub8x3_toNat, sub8x4_toNat, mulLo_fold, mulHi_fold, ← ha0, ← hb0, ← hb1, ← hb2, ← hb3, ← hb4, ← hb5, ← hm7l, ← hm7h, ← hm11l, ← hm11h, ← ht12, ← ht13, ← hm17l, ← hm17h, ← ht18, ← ht19, ← hm23l, ← hm23h, ← ht24, ← ht25, ← hm29l, ← hm29h, ← ht30, ← ht31, ← hm35l, ← hm35h, ← ht36, ← ht37]
 
 set_option maxHeartbeats 1600000 in
-set_option maxRecDepth 100000 in
 theorem mul768_part1 (s : State) (pr pa pb : Word)
     (hr : Buf s pr 12 true) (ha : Buf s pa 6 false) (hb : Buf s pb 6 false)
     (hra : X86.Disjoint pr 12 pa 6) (hrb : X86.Disjoint pr 12 pb 6)
@@ -276,7 +274,6 @@ theorem mul768_part1 (s : State) (pr pa pb : Word)
   x86_sym [sub8x3_toNat, sub8x4_toNat, mulLo_fold, mulHi_fold, ← ha1, ← hb0, ← hb1, ← hb2, ← hb3, ← hb4, ← hb5, ← hm42l, ← hm42h, ← ht43, ← ht44, ← hm48l, ← hm48h, ← ht49, ← ht50, ← ht51, ← ht52, ← hm55l, ← hm55h, ← ht56, ← ht57, ← ht58, ← ht59, ← hm62l, ← hm62h, ← ht63, ← ht64, ← ht65, ← ht66, ← hm69l, ← hm69h, ← ht70, ← ht71, ← ht72, ← ht73, ← hm76l, ← hm76h, ← ht77, ← ht78, ← ht79, ← ht80]
 
 set_option maxHeartbeats 1600000 in
-set_option maxRecDepth 100000 in
 theorem mul768_part2 (s : State) (pr pa pb : Word)
     (hr : Buf s pr 12 true) (ha : Buf s pa 6 false) (hb : Buf s pb 6 false)
     (hra : X86.Disjoint pr 12 pa 6) (hrb : X86.Disjoint pr 12 pb 6)
@@ -318,7 +315,6 @@ theorem mul768_part2 (s : State) (pr pa pb : Word)
   x86_sym [sub8x3_toNat, sub8x4_toNat, mulLo_fold, mulHi_fold, ← ha2, ← hb0, ← hb1, ← hb2, ← hb3, ← hb4, ← hb5, ← hm84l, ← hm84h, ← ht85, ← ht86, ← hm90l, ← hm90h, ← ht91, ← ht92, ← ht93, ← ht94, ← hm97l, ← hm97h, ← ht98, ← ht99, ← ht100, ← ht101, ← hm104l, ← hm104h, ← ht105, ← ht106, ← ht107, ← ht108, ← hm111l, ← hm111h, ← ht112, ← ht113, ← ht114, ← ht115, ← hm118l, ← hm118h, ← ht119, ← ht120, ← ht121, ← ht122]
 
 set_option maxHeartbeats 1600000 in
-set_option maxRecDepth 100000 in
 theorem mul768_part3 (s : State) (pr pa pb : Word)
     (hr : Buf s pr 12 true) (ha : Buf s pa 6 false) (hb : Buf s pb 6 false)
     (hra : X86.Disjoint pr 12 pa 6) (hrb : X86.Disjoint pr 12 pb 6)
@@ -361,7 +357,6 @@ theorem mul768_part3 (s : State) (pr pa pb : Word)
   x86_sym [sub8x3_toNat, sub8x4_toNat, mulLo_fold, mulHi_fold, ← ha3, ← hb0, ← hb1, ← hb2, ← hb3, ← hb4, ← hb5, ← hm126l, ← hm126h, ← ht127, ← ht128, ← hm132l, ← hm132h, ← ht133, ← ht134, ← ht135, ← ht136, ← hm139l, ← hm139h, ← ht140, ← ht141, ← ht142, ← ht143, ← hm146l, ← hm146h, ← ht147, ← ht148, ← ht149, ← ht150, ← hm153l, ← hm153h, ← ht154, ← ht155, ← ht156, ← ht157, ← hm160l, ← hm160h, ← ht161, ← ht162, ← ht163, ← ht164]
 
 set_option maxHeartbeats 1600000 in
-set_option maxRecDepth 100000 in
 theorem mul768_part4 (s : State) (pr pa pb : Word)
     (hr : Buf s pr 12 true) (ha : Buf s pa 6 false) (hb : Buf s pb 6 false)
     (hra : X86.Disjoint pr 12 pa 6) (hrb : X86.Disjoint pr 12 pb 6)
@@ -404,7 +399,6 @@ theorem mul768_part4 (s : State) (pr pa pb : Word)
   x86_sym [sub8x3_toNat, sub8x4_toNat, mulLo_fold, mulHi_fold, ← ha4, ← hb0, ← hb1, ← hb2, ← hb3, ← hb4, ← hb5, ← hm168l, ← hm168h, ← ht169, ← ht170, ← hm174l, ← hm174h, ← ht175, ← ht176, ← ht177, ← ht178, ← hm181l, ← hm181h, ← ht182, ← ht183, ← ht184, ← ht185, ← hm188l, ← hm188h, ← ht189, ← ht190, ← ht191, ← ht192, ← hm195l, ← hm195h, ← ht196, ← ht197, ← ht198, ← ht199, ← hm202l, ← hm202h, ← ht203, ← ht204, ← ht205, ← ht206]
 
 set_option maxHeartbeats 1600000 in
-set_option maxRecDepth 100000 in
 theorem mul768_part5 (s : State) (pr pa pb : Word)
     (hr : Buf s pr 12 true) (ha : Buf s pa 6 false) (hb : Buf s pb 6 false)
     (hra : X86.Disjoint pr 12 pa 6) (hrb : X86.Disjoint pr 12 pb 6)
@@ -447,7 +441,6 @@ theorem mul768_part5 (s : State) (pr pa pb : Word)
   x86_sym [sub8x3_toNat, sub8x4_toNat, mulLo_fold, mulHi_fold, ← ha5, ← hb0, ← hb1, ← hb2, ← hb3, ← hb4, ← hb5, ← hm210l, ← hm210h, ← ht211, ← ht212, ← hm216l, ← hm216h, ← ht217, ← ht218, ← ht219, ← ht220, ← hm223l, ← hm223h, ← ht224, ← ht225, ← ht226, ← ht227, ← hm230l, ← hm230h, ← ht231, ← ht232, ← ht233, ← ht234, ← hm237l, ← hm237h, ← ht238, ← ht239, ← ht240, ← ht241, ← hm244l, ← hm244h, ← ht245, ← ht246, ← ht247, ← ht248]
 
 set_option maxHeartbeats 1600000 in
-set_option maxRecDepth 100000 in
 theorem mul768_part6 (s : State) (pr pa pb : Word)
     (hr : Buf s pr 12 true) (ha : Buf s pa 6 false) (hb : Buf s pb 6 false)
     (hra : X86.Disjoint pr 12 pa 6) (hrb : X86.Disjoint pr 12 pb 6)
@@ -475,7 +468,6 @@ theorem mul768_part6 (s : State) (pr pa pb : Word)
 
 
 set_option maxHeartbeats 1600000 in
-set_option maxRecDepth 100000 in
 set_option exponentiation.threshold 800 in
 /-- `void bigint_768_multiply(res, a, b)`: the twelve limbs of `res` are `a · b` -/
 theorem bigint_768_multiply_run (s : State) (pr pa pb : Word)
